@@ -12,11 +12,31 @@ import (
 func newGen(p *Program, sp *Specs, dropped map[string]bool) *Gen {
 	g := &Gen{P: p, Specs: sp, s: newScript(), heapSo: map[string]string{}, inits: map[string]*HV{}, frameI: map[string]bool{}, tags: map[string]int{},
 		dropped: dropped, touched: map[string]bool{}, trustedUse: map[string]bool{}, structs: map[string]*types.Struct{}, memSeen: map[string]bool{},
-		ghostVals: map[string]CV{}, paramVals: map[string]CV{}, exIDs: map[string]string{}, instTerms: map[string][]string{}}
+		ghostVals: map[string]CV{}, paramVals: map[string]CV{}, exIDs: map[string]string{}, instTerms: map[string][]string{}, ifaceUse: map[string]bool{}}
 	if g.dropped == nil {
 		g.dropped = map[string]bool{}
 	}
 	g.declHeap("alloc", "Int")
+	// struct datatypes named in spec-function / ghost declarations
+	need := func(so string) {
+		if strings.HasPrefix(so, "S.") {
+			if o := p.Pkg.Types.Scope().Lookup(strings.TrimPrefix(so, "S.")); o != nil {
+				g.sortOf(o.Type())
+			}
+		}
+	}
+	for _, sf := range sp.SpecFuns {
+		for _, a := range sf.Args {
+			need(a)
+		}
+		need(sf.Ret)
+	}
+	for _, so := range sp.GhostVar {
+		need(so)
+	}
+	for _, gf := range sp.GhostFld {
+		need(gf[1])
+	}
 	return g
 }
 
@@ -98,6 +118,10 @@ func (g *Gen) genFunc(fs *FuncSpec) {
 	for _, a := range asg {
 		l := env0.locOf(a)
 		asgBy[l.heap] = append(asgBy[l.heap], l)
+		if strings.HasPrefix(l.heap, "Mh.") { // a map location covers presence and value
+			mv := "Mv." + strings.TrimPrefix(l.heap, "Mh.")
+			asgBy[mv] = append(asgBy[mv], loc{heap: mv, ref: l.ref, all: l.all})
+		}
 	}
 	for n, r := range f.rets {
 		rv := map[string]CV{}
@@ -375,7 +399,7 @@ func (f *frame) loopHeader(li *loopInfo, pc string, st *State) string {
 				continue
 			}
 			id := fmt.Sprintf("%s#loop%d.auto.frame(%s)", key, li.ord, h)
-			if g.dropped[id] {
+			if _, prec := li.precise[h]; prec || g.dropped[id] {
 				continue
 			}
 			cands = append(cands, loopCand{id: id, heap: h})
@@ -396,6 +420,17 @@ func (f *frame) loopHeader(li *loopInfo, pc string, st *State) string {
 			continue
 		}
 		hv := g.hv(st, h)
+		if refs, ok := li.precise[h]; ok && strings.HasPrefix(hv.sort, "(Array") {
+			// modified only at references that do not change in the loop: havoc just those
+			cur := hv.term
+			el := splitSort(hv.sort)[2]
+			for _, r := range refs {
+				cur = "(store " + cur + " " + r + " " + g.s.decl("hv."+h, el).S + ")"
+			}
+			d := g.s.def("hv."+h, T{cur, hv.sort})
+			g.setHeap(st, h, g.newHV(h, hv.sort, d.S, hvStore, hv))
+			continue
+		}
 		nv := g.newHV(h, hv.sort, g.s.decl("hv."+h, hv.sort).S, hvHavoc)
 		for _, cd := range cands {
 			if cd.heap == h {
@@ -518,6 +553,74 @@ func (f *frame) loopMods(li *loopInfo) ([]*ssa.Alloc, []string) {
 	cellSet := map[*ssa.Alloc]bool{}
 	heapSet := map[string]bool{}
 	all := false
+	// precision: a heap all of whose modifications in the loop are at references that do
+	// not change in the loop is havocked only at those references
+	li.precise = map[string][]string{}
+	imprecise := map[string]bool{}
+	phase := 0
+	phase0Heaps := map[string]bool{}
+	mark := func(h string) {
+		heapSet[h] = true
+		imprecise[h] = true
+	}
+	markAt := func(h, ref string) {
+		heapSet[h] = true
+		if phase == 0 || ref == "" || strings.Contains(ref, "?unk") {
+			imprecise[h] = true
+			return
+		}
+		for _, r := range li.precise[h] {
+			if r == ref {
+				return
+			}
+		}
+		li.precise[h] = append(li.precise[h], ref)
+	}
+	// invVal: the value of v if it cannot change during the loop
+	var invVal func(v ssa.Value, depth int) string
+	invVal = func(v ssa.Value, depth int) string {
+		if depth > 0 {
+			return "?unk"
+		}
+		switch x := v.(type) {
+		case *ssa.Const, *ssa.Parameter:
+			if _, isP := x.(*ssa.Parameter); isP {
+				if t, ok := f.vals[v]; ok {
+					return t.S
+				}
+				return "?unk"
+			}
+			return f.val(v).S
+		case *ssa.UnOp:
+			if a, ok := x.X.(*ssa.Alloc); ok && !a.Heap && x.Op.String() == "*" && !cellSet[a] {
+				if st := li.entry; st != nil {
+					if t, live := st.cells[a]; live {
+						return t.S
+					}
+				}
+			}
+			// a field of an unchanging object, the field heap not being written in the loop
+			if fa, ok := x.X.(*ssa.FieldAddr); ok && x.Op.String() == "*" && phase == 1 {
+				if pt, ok := fa.X.Type().Underlying().(*types.Pointer); ok {
+					if _, isStruct := pt.Elem().Underlying().(*types.Struct); isStruct {
+						if _, located := fa.X.(*ssa.Alloc); !located {
+							base := invVal(fa.X, depth)
+							h, _ := g.fieldHeapOf(pt.Elem(), fa.Field)
+							if base != "?unk" && !phase0Heaps[h] && li.entry != nil {
+								return "(select " + g.hv(li.entry, h).term + " " + base + ")"
+							}
+						}
+					}
+				}
+			}
+		}
+		if ins, ok := v.(ssa.Instruction); ok && ins.Block() != nil && !li.body[ins.Block()] && ins.Parent() == f.fn {
+			if t, ok := f.vals[v]; ok {
+				return t.S
+			}
+		}
+		return "?unk"
+	}
 	var scan func(fn *ssa.Function, blocks []*ssa.BasicBlock, bind map[*ssa.FreeVar]ssa.Value, depth int)
 	var baseOf func(v ssa.Value, bind map[*ssa.FreeVar]ssa.Value)
 	baseOf = func(v ssa.Value, bind map[*ssa.FreeVar]ssa.Value) {
@@ -532,19 +635,19 @@ func (f *frame) loopMods(li *loopInfo) ([]*ssa.Alloc, []string) {
 			case *types.Struct:
 				for k := 0; k < u.NumFields(); k++ {
 					h, _ := g.fieldHeapOf(et, k)
-					heapSet[h] = true
+					mark(h)
 				}
 			case *types.Array:
-				heapSet[g.elemHeapOf(u.Elem())] = true
+				mark(g.elemHeapOf(u.Elem()))
 			default:
-				heapSet[g.boxHeapOf(et)] = true
+				mark(g.boxHeapOf(et))
 			}
 		case *ssa.IndexAddr:
 			switch xt := x.X.Type().Underlying().(type) {
 			case *types.Slice:
-				heapSet[g.elemHeapOf(xt.Elem())] = true
+				mark(g.elemHeapOf(xt.Elem()))
 			case *types.Pointer:
-				heapSet[g.elemHeapOf(xt.Elem().Underlying().(*types.Array).Elem())] = true
+				mark(g.elemHeapOf(xt.Elem().Underlying().(*types.Array).Elem()))
 			}
 		case *ssa.FieldAddr:
 			switch b := x.X.(type) {
@@ -569,85 +672,128 @@ func (f *frame) loopMods(li *loopInfo) ([]*ssa.Alloc, []string) {
 			}
 			pt := x.X.Type().Underlying().(*types.Pointer)
 			h, _ := g.fieldHeapOf(pt.Elem(), x.Field)
-			heapSet[h] = true
+			mark(h)
 		case *ssa.Global:
 			t := x.Type().Underlying().(*types.Pointer).Elem()
 			g.declHeap("G."+x.Name(), g.sortOf(t))
-			heapSet["G."+x.Name()] = true
+			mark("G."+x.Name())
 		case *ssa.FreeVar:
 			if b, ok := bind[x]; ok {
 				baseOf(b, nil)
 				return
 			}
-			heapSet[g.boxHeapOf(x.Type().Underlying().(*types.Pointer).Elem())] = true
+			mark(g.boxHeapOf(x.Type().Underlying().(*types.Pointer).Elem()))
 		default:
 			if pt, ok := v.Type().Underlying().(*types.Pointer); ok {
 				if st, ok := pt.Elem().Underlying().(*types.Struct); ok {
 					for k := 0; k < st.NumFields(); k++ {
 						h, _ := g.fieldHeapOf(pt.Elem(), k)
-						heapSet[h] = true
+						mark(h)
 					}
 					return
 				}
-				heapSet[g.boxHeapOf(pt.Elem())] = true
+				mark(g.boxHeapOf(pt.Elem()))
 			}
 		}
 	}
-	contractMods := func(fs *FuncSpec, tys []types.Type) {
+	contractMods := func(fs *FuncSpec, tys []types.Type, actuals []string) {
 		_, _, asg, _, _ := g.clauses(fs)
 		vars := map[string]CV{}
 		for k, p := range fs.Params {
 			if k < len(tys) {
-				vars[p.Name] = CV{T{"0", g.sortOf(tys[k])}, tys[k]}
+				v := "?unk"
+				if k < len(actuals) {
+					v = actuals[k]
+				}
+				vars[p.Name] = CV{T{v, g.sortOf(tys[k])}, tys[k]}
 			}
 		}
-		env := &Env{g: g, st: g.entry, old: g.entry, vars: vars, pc: "false", hyp: true}
+		st := g.entry
+		if li.entry != nil {
+			st = li.entry
+		}
+		g.s.noDef++
+		env := &Env{g: g, st: st, old: g.entry, vars: vars, pc: "false", hyp: true}
 		for _, a := range asg {
 			l := env.locOf(a)
-			heapSet[l.heap] = true
+			ref := l.ref
+			if l.all || !strings.HasPrefix(g.heapSort(l.heap), "(Array") {
+				ref = ""
+			}
+			markAt(l.heap, ref)
 			if strings.HasPrefix(l.heap, "Mh.") {
-				heapSet["Mv."+strings.TrimPrefix(l.heap, "Mh.")] = true
+				markAt("Mv."+strings.TrimPrefix(l.heap, "Mh."), ref)
 			}
 		}
-		heapSet["alloc"] = true
+		g.s.noDef--
+		mark("alloc")
+	}
+	// preciseStore: a store through p.f or s[i] whose object does not change in the loop
+	preciseStore := func(addr ssa.Value, depth int) (string, string, bool) {
+		switch x := addr.(type) {
+		case *ssa.FieldAddr:
+			switch b := x.X.(type) {
+			case *ssa.Alloc, *ssa.FieldAddr:
+				return "", "", false
+			case *ssa.IndexAddr:
+				if sl, ok := b.X.Type().Underlying().(*types.Slice); ok {
+					return g.elemHeapOf(sl.Elem()), "(ptr " + invVal(b.X, depth) + ")", true
+				}
+				return "", "", false
+			}
+			pt := x.X.Type().Underlying().(*types.Pointer)
+			if _, ok := pt.Elem().Underlying().(*types.Struct); ok {
+				h, _ := g.fieldHeapOf(pt.Elem(), x.Field)
+				return h, invVal(x.X, depth), true
+			}
+		case *ssa.IndexAddr:
+			if sl, ok := x.X.Type().Underlying().(*types.Slice); ok && !isByteSlice(x.X.Type()) {
+				return g.elemHeapOf(sl.Elem()), "(ptr " + invVal(x.X, depth) + ")", true
+			}
+		}
+		return "", "", false
 	}
 	scan = func(fn *ssa.Function, blocks []*ssa.BasicBlock, bind map[*ssa.FreeVar]ssa.Value, depth int) {
 		for _, b := range blocks {
 			for _, ins := range b.Instrs {
 				switch i := ins.(type) {
 				case *ssa.Store:
-					baseOf(i.Addr, bind)
+					if h, ref, ok := preciseStore(i.Addr, depth); ok {
+						markAt(h, ref)
+					} else {
+						baseOf(i.Addr, bind)
+					}
 				case *ssa.MapUpdate:
 					mt := i.Map.Type().Underlying().(*types.Map)
-					heapSet[g.mapHasHeap(mt)] = true
-					heapSet[g.mapValHeap(mt)] = true
+					markAt(g.mapHasHeap(mt), invVal(i.Map, depth))
+					markAt(g.mapValHeap(mt), invVal(i.Map, depth))
 				case *ssa.Alloc:
 					if i.Heap {
-						heapSet["alloc"] = true
+						mark("alloc")
 						baseOf(i, bind)
 					} else if depth == 0 {
 						// a variable declared inside the loop body is re-initialised there
 					}
 				case *ssa.MakeSlice:
-					heapSet["alloc"] = true
-					heapSet[g.elemHeapOf(i.Type().Underlying().(*types.Slice).Elem())] = true
+					mark("alloc")
+					mark(g.elemHeapOf(i.Type().Underlying().(*types.Slice).Elem()))
 				case *ssa.MakeMap:
-					heapSet["alloc"] = true
-					heapSet[g.mapHasHeap(i.Type().Underlying().(*types.Map))] = true
+					mark("alloc")
+					mark(g.mapHasHeap(i.Type().Underlying().(*types.Map)))
 				case *ssa.MakeClosure:
-					heapSet["alloc"] = true
+					mark("alloc")
 				case *ssa.Range:
 					if _, ok := i.X.Type().Underlying().(*types.Map); ok {
 						h := "iter." + f.prefix + i.Name()
 						g.declHeap(h, "(Array "+g.mapKeySort(i.X.Type().Underlying().(*types.Map))+" Bool)")
-						heapSet[h] = true
+						mark(h)
 					}
 				case *ssa.Next:
 					if r, ok := i.Iter.(*ssa.Range); ok {
 						if mt, ok := r.X.Type().Underlying().(*types.Map); ok {
 							h := "iter." + f.prefix + r.Name()
 							g.declHeap(h, "(Array "+g.mapKeySort(mt)+" Bool)")
-							heapSet[h] = true
+							mark(h)
 						}
 					}
 				case *ssa.Call:
@@ -656,16 +802,16 @@ func (f *frame) loopMods(li *loopInfo) ([]*ssa.Alloc, []string) {
 						switch bi.Name() {
 						case "append":
 							if sl, ok := com.Args[0].Type().Underlying().(*types.Slice); ok && !isByteSlice(com.Args[0].Type()) {
-								heapSet[g.elemHeapOf(sl.Elem())] = true
-								heapSet["alloc"] = true
+								mark(g.elemHeapOf(sl.Elem()))
+								mark("alloc")
 							}
 						case "copy":
 							if sl, ok := com.Args[0].Type().Underlying().(*types.Slice); ok && !isByteSlice(com.Args[0].Type()) {
-								heapSet[g.elemHeapOf(sl.Elem())] = true
+								mark(g.elemHeapOf(sl.Elem()))
 							}
 						case "delete", "clear":
 							if mt, ok := com.Args[0].Type().Underlying().(*types.Map); ok {
-								heapSet[g.mapHasHeap(mt)] = true
+								mark(g.mapHasHeap(mt))
 							}
 						}
 						continue
@@ -678,9 +824,13 @@ func (f *frame) loopMods(li *loopInfo) ([]*ssa.Alloc, []string) {
 							for k := 0; k < sig.Params().Len(); k++ {
 								tys = append(tys, sig.Params().At(k).Type())
 							}
-							contractMods(fs, tys)
+							acts := []string{invVal(com.Value, depth)}
+							for _, a := range com.Args {
+								acts = append(acts, invVal(a, depth))
+							}
+							contractMods(fs, tys, acts)
 						} else {
-							heapSet["alloc"] = true
+							mark("alloc")
 						}
 						continue
 					}
@@ -693,7 +843,11 @@ func (f *frame) loopMods(li *loopInfo) ([]*ssa.Alloc, []string) {
 								for k := 0; k < sig.Params().Len(); k++ {
 									tys = append(tys, sig.Params().At(k).Type())
 								}
-								contractMods(fs, tys)
+								acts := []string{invVal(com.Value, depth)}
+								for _, a := range com.Args {
+									acts = append(acts, invVal(a, depth))
+								}
+								contractMods(fs, tys, acts)
 								continue
 							}
 						}
@@ -710,9 +864,9 @@ func (f *frame) loopMods(li *loopInfo) ([]*ssa.Alloc, []string) {
 						continue
 					}
 					if callee.Pkg != g.P.SPkg {
-						heapSet["alloc"] = true
+						mark("alloc")
 						if callee.String() == "sort.Strings" {
-							heapSet["E.NB"] = true
+							mark("E.NB")
 							g.elemHeapOf(types.Typ[types.String])
 						}
 						continue
@@ -726,7 +880,11 @@ func (f *frame) loopMods(li *loopInfo) ([]*ssa.Alloc, []string) {
 							all = true
 						}
 					case fs != nil:
-						contractMods(fs, paramTypes(callee))
+						var acts []string
+						for _, a := range com.Args {
+							acts = append(acts, invVal(a, depth))
+						}
+						contractMods(fs, paramTypes(callee), acts)
 					default:
 						if g.canAutoInline(callee) && depth < 4 {
 							scan(callee, callee.Blocks, nil, depth+1)
@@ -744,9 +902,27 @@ func (f *frame) loopMods(li *loopInfo) ([]*ssa.Alloc, []string) {
 	}
 	sort.Slice(blocks, func(i, j int) bool { return blocks[i].Index < blocks[j].Index })
 	scan(f.fn, blocks, nil, 0)
+	// second phase: with the set of modified cells known, attribute precise references
+	phase = 1
+	savedHeaps := heapSet
+	phase0Heaps = savedHeaps
+	heapSet = map[string]bool{}
+	imprecise = map[string]bool{}
+	li.precise = map[string][]string{}
+	scan(f.fn, blocks, nil, 0)
+	for h := range savedHeaps {
+		if !heapSet[h] {
+			heapSet[h] = true
+			imprecise[h] = true
+		}
+	}
+	for h := range imprecise {
+		delete(li.precise, h)
+	}
 	if all {
+		li.precise = map[string][]string{}
 		for _, n := range sortedKeys(g.heapSo) {
-			heapSet[n] = true
+			mark(n)
 		}
 	}
 	var cells []*ssa.Alloc
